@@ -24,14 +24,14 @@ import (
 
 type c19PubKey struct{ addr []byte }
 
-func (k c19PubKey) Reset()                                  {}
-func (k c19PubKey) String() string                          { return "c19key" }
-func (k c19PubKey) ProtoMessage()                           {}
-func (k c19PubKey) Address() cryptotypes.Address            { return k.addr }
-func (k c19PubKey) Bytes() []byte                           { return k.addr }
-func (k c19PubKey) VerifySignature(msg, sig []byte) bool    { return true }
-func (k c19PubKey) Equals(o cryptotypes.PubKey) bool        { return string(o.Bytes()) == string(k.addr) }
-func (k c19PubKey) Type() string                            { return "c19" }
+func (k c19PubKey) Reset()                               {}
+func (k c19PubKey) String() string                       { return "c19key" }
+func (k c19PubKey) ProtoMessage()                        {}
+func (k c19PubKey) Address() cryptotypes.Address         { return k.addr }
+func (k c19PubKey) Bytes() []byte                        { return k.addr }
+func (k c19PubKey) VerifySignature(msg, sig []byte) bool { return true }
+func (k c19PubKey) Equals(o cryptotypes.PubKey) bool     { return string(o.Bytes()) == string(k.addr) }
+func (k c19PubKey) Type() string                         { return "c19" }
 
 type c19Tx struct {
 	sender int
@@ -41,10 +41,12 @@ type c19Tx struct {
 
 var c19Senders = [][]byte{[]byte("sender-a------------"), []byte("sender-b------------"), []byte("sender-c------------")}
 
-func (t *c19Tx) GetMsgs() []sdk.Msg                        { return t.msgs }
-func (t *c19Tx) GetMsgsV2() ([]protov2.Message, error)     { return nil, nil }
-func (t *c19Tx) GetSigners() ([][]byte, error)             { return [][]byte{c19Senders[t.sender]}, nil }
-func (t *c19Tx) GetPubKeys() ([]cryptotypes.PubKey, error) { return []cryptotypes.PubKey{c19PubKey{c19Senders[t.sender]}}, nil }
+func (t *c19Tx) GetMsgs() []sdk.Msg                    { return t.msgs }
+func (t *c19Tx) GetMsgsV2() ([]protov2.Message, error) { return nil, nil }
+func (t *c19Tx) GetSigners() ([][]byte, error)         { return [][]byte{c19Senders[t.sender]}, nil }
+func (t *c19Tx) GetPubKeys() ([]cryptotypes.PubKey, error) {
+	return []cryptotypes.PubKey{c19PubKey{c19Senders[t.sender]}}, nil
+}
 func (t *c19Tx) GetSignaturesV2() ([]signingtypes.SignatureV2, error) {
 	return []signingtypes.SignatureV2{{PubKey: c19PubKey{c19Senders[t.sender]}, Sequence: t.nonce}}, nil
 }
